@@ -1,5 +1,5 @@
 import io
-from impl import op, hx, unhx, err
+from impl import op, hx, unhx, err, mkfile
 import register_crypto_plugin  # noqa: F401  (registers the appnote plug-in exactly as the appnotes do)
 from bec2format.bf3file import Bf3Component, Bf3File, BF3_FILE_SIG
 from bec2format.bytes_reader import BytesReader
@@ -55,7 +55,7 @@ def show_comps(cs):
 @op("bf3.tobin")
 def tobin(off, k, cs):
     try:
-        return "ok " + hx(Bf3File({}, parse_comps(cs)).to_binary(int(off), unhx(k)))
+        return "ok " + hx(mkfile({}, parse_comps(cs)).to_binary(int(off), unhx(k)))
     except Exception as e:
         return err(e)
 
@@ -81,7 +81,7 @@ def frombin(chk, k, pos, b):
 @op("bf3.write")
 def write(k, cs):
     try:
-        f = Bf3File({}, parse_comps(cs))
+        f = mkfile({}, parse_comps(cs))
         return "ok " + hx(BF3_FILE_SIG + f.to_binary(len(BF3_FILE_SIG), unhx(k)))
     except Exception as e:
         return err(e)
@@ -360,12 +360,12 @@ def prop_c03(off, k, cs):
         return "FAIL Bf3File() without arguments is not the empty file (no comments, no components)"
     try:
         if e0.dir_to_binary() != e0.dir_to_binary(0, bytes(16)) or \
-                Bf3File({}, parse_comps(cs)).dir_to_binary() != Bf3File({}, parse_comps(cs)).dir_to_binary(0, bytes(16)):
+                mkfile({}, parse_comps(cs)).dir_to_binary() != mkfile({}, parse_comps(cs)).dir_to_binary(0, bytes(16)):
             return "FAIL dir_to_binary() differs from dir_to_binary(0, default key)"
     except OverflowError:
         pass                                        # an entry beyond the 255-byte limit: the writer refuses below
     try:
-        out = Bf3File({}, comps).to_binary(off, key)
+        out = mkfile({}, comps).to_binary(off, key)
     except Exception as e:
         return "ok writer-rejects " + type(e).__name__
     spec = []
@@ -384,7 +384,7 @@ def prop_c03(off, k, cs):
         return "FAIL independent parser recovers different fields"
     # the same objects again: another key and offset, the components in a second file in reverse order, then the first call
     # once more - nothing remembered from the earlier serialisations
-    fobj = Bf3File({}, comps)
+    fobj = mkfile({}, comps)
     key2 = bytes(b ^ 0xA5 for b in key)
     for kk, oo, cc, sp in ((key, off, comps, spec), (key2, off + 7, comps, None), (key, off, comps[::-1], None), (key, off, comps, spec)):
         if sp is None:
@@ -392,7 +392,7 @@ def prop_c03(off, k, cs):
                    refaes.cbc_encrypt(kk, bytes(16), refaes.zero_pad(c.blob)) if c.encrypt_by_session_key else c.blob, c.actual_len)
                   for c in cc]
         try:
-            got = (fobj if cc is comps else Bf3File({}, cc)).to_binary(oo, kk)
+            got = (fobj if cc is comps else mkfile({}, cc)).to_binary(oo, kk)
         except Exception as e:
             return f"FAIL serialising the same component objects again raises {type(e).__name__}"
         if got != layout.serialize(kk, oo, sp):
@@ -400,7 +400,7 @@ def prop_c03(off, k, cs):
                     "state kept on the file or component objects")
     # the same file object after it was CHANGED: a payload replaced, a tag added, a component appended and one removed -
     # every serialisation describes the object as it is now (nothing computed for an earlier state may survive)
-    fobj = Bf3File({}, parse_comps(cs))
+    fobj = mkfile({}, parse_comps(cs))
     try:
         fobj.to_binary(off, key)
         fobj.write_file(io.StringIO(), key)
@@ -430,9 +430,9 @@ def prop_c03(off, k, cs):
                 "documented layout of its current content: something computed for the earlier state was reused")
     # the defaults: `to_binary()` = offset 0 and the default (all-zero) session key; keyword forms of the same call
     try:
-        d0 = Bf3File({}, parse_comps(cs)).to_binary()
-        dk = Bf3File({}, parse_comps(cs)).to_binary(session_key=key)
-        do = Bf3File({}, parse_comps(cs)).to_binary(offset=off, session_key=key)
+        d0 = mkfile({}, parse_comps(cs)).to_binary()
+        dk = mkfile({}, parse_comps(cs)).to_binary(session_key=key)
+        do = mkfile({}, parse_comps(cs)).to_binary(offset=off, session_key=key)
     except OverflowError:
         d0 = dk = do = None
     except Exception as e:
@@ -451,14 +451,14 @@ def prop_c03(off, k, cs):
     # `components` is declared as an Iterable: a tuple, an iterator or a generator gives the same file as the list
     for what, mk in (("tuple", tuple), ("iterator", iter), ("generator", lambda l: (c for c in l)), ("map", lambda l: map(lambda c: c, l))):
         try:
-            got = Bf3File({}, mk(parse_comps(cs))).to_binary(off, key)
+            got = mkfile({}, mk(parse_comps(cs))).to_binary(off, key)
         except Exception as e:
             return f"FAIL components handed over as {what}: {type(e).__name__}: {e}"
         if got != out:
             return f"FAIL components handed over as {what}: {len(got)} bytes written instead of the {len(out)} bytes of the same list"
     # the text writer with an explicit session key writes the same container after the signature
     s = io.StringIO()
-    Bf3File({}, parse_comps(cs)).write_file(s, key)
+    mkfile({}, parse_comps(cs)).write_file(s, key)
     lines = s.getvalue().split("\n")
     body = bytes.fromhex("".join(lines[lines.index("") + 1:]))
     want5 = BF3_FILE_SIG + layout.serialize(key, len(BF3_FILE_SIG), spec)
@@ -534,7 +534,7 @@ def unrepresentable(comps):
 def prop_c04bf3(k, c, cs, what, stride, offset):
     key, comments, comps = unhx(k), parse_comments(c), parse_comps(cs)
     try:
-        binary = BF3_FILE_SIG + Bf3File({}, parse_comps(cs)).to_binary(len(BF3_FILE_SIG), key)
+        binary = BF3_FILE_SIG + mkfile({}, parse_comps(cs)).to_binary(len(BF3_FILE_SIG), key)
     except OverflowError:
         if unrepresentable(comps):
             return "ok 0 writer-rejects OverflowError"
